@@ -134,6 +134,7 @@ mutual
     | .append x e => (regroupE e).map (.append x)
     | .ret e => (regroupE e).map .ret
     | .print e => (regroupE e).map .print
+    | .print2 a b => (match regroupE a, regroupE b with | some x, some y => some (.print2 x y) | _, _ => none)
     | .exprS e => (regroupE e).map .exprS
     | .brk => some .brk
     | .cont => some .cont
